@@ -110,6 +110,30 @@ def check_state(oc, pid, ro, tree, label, rec_extra, original):
     return text
 
 
+def _envelope_plans():
+    """Running orders in every envelope layout x the messages that touch the envelope or the roCreate."""
+    X = B.story('X', [B.item('x1'), B.p('text & more')])
+    base = B.ro_doc([B.story('A', [B.item('a1')]), B.story('B', [])], message_id='17')
+    kids = base[4]
+    variants = [kids[-1:] + kids[:-1],                                   # roCreate first
+                [k for k in kids if k[0] in ('messageID', 'roCreate')],  # bare
+                [kids[-1]] + [k for k in kids if k[0] == 'messageID'],   # roCreate, then messageID
+                [E('mosExtra', text='x')] + kids + [E('mosTrailer', text='y')],
+                kids]
+    seqs = [[('RunningOrderReplace', B.ro_replace([X], message_id='20'))],
+            [('RunningOrderReplace', B.ro_replace([X], message_id='20')), ('RunningOrderReplace', B.ro_replace([], message_id='21', pattern='none'))],
+            [('MetaDataReplace', B.metadata_replace([E('roSlug', text='s<>&')], message_id='20')), ('RunningOrderReplace', B.ro_replace([X], message_id='21')),
+             ('RunningOrderEnd', B.ro_delete(message_id='22'))],
+            [('StorySend', B.story_send('A', [B.p('sent')], message_id='20')), ('RunningOrderEnd', B.ro_delete(message_id='21')),
+             ('RunningOrderReplace', B.ro_replace([X], message_id='22')), ('RunningOrderEnd', B.ro_delete(message_id='23'))],
+            [('RunningOrderEnd', B.ro_delete(message_id='20', ro_id='OTHER')), ('StoryAppend', B.story_append([X], message_id='21'))]]
+    out = []
+    for v in variants:
+        for sq in seqs:
+            out.append(([base[0], base[1], base[2], base[3], list(v)], sq))
+    return out
+
+
 def run_c14(tier, seed):
     from . import impl, lean
     oc = Outcome('C14')
@@ -131,33 +155,59 @@ def run_c14(tier, seed):
         oc.count('rich-docs')
     # every state of live histories
     n_hist = 80 if tier == 'quick' else 5000
+    plans = []
     for hs in range(n_hist):
-        hseed = seed * 6007 + 29 * hs
+        plans.append(('random', seed * 6007 + 29 * hs))
+    plans += [('envelope', k) for k in range(len(_envelope_plans()))]
+    for kind, hseed in plans:
         hrng = random.Random(hseed)
-        g = gen_hist.Gen(hrng)
-        ro_text = TJ.to_text(g.ro(hrng.randrange(0, 5)))
+        g = gen_hist.Gen(hrng, odd_message_ids=True)
+        if kind == 'random':
+            ro_text = TJ.to_text(g.ro(hrng.randrange(0, 5)))
+            n = hrng.randrange(1, (10 if tier == 'quick' else 30) + 1)
+            fixed = None
+        else:
+            ro_tree, fixed = _envelope_plans()[hseed]
+            ro_text = TJ.to_text(ro_tree)
+            n = len(fixed)
         ro = impl.load(ro_text)
         original = {'message_id': ro.message_id, 'ro_id': ro.ro_id}
-        n = hrng.randrange(1, (10 if tier == 'quick' else 30) + 1)
-        delete_at = hrng.randrange(0, n) if hrng.random() < 0.4 else None
+        delete_at = hrng.randrange(0, n) if (kind == 'random' and hrng.random() < 0.4) else None
         docs = [ro_text]
+        script = []
+        objects = []
         for k in range(n):
             state = TJ.to_tree(ro.xml)
-            if k == delete_at:
+            mo, obj = None, None
+            if fixed is not None:
+                cls, msg = fixed[k]
+                msg_text = TJ.to_text(msg)
+            elif objects and hrng.random() < 0.06:
+                obj = hrng.randrange(len(objects))
+                cls, msg_text, mo = objects[obj]        # the same message object added again
+            elif k == delete_at:
                 cls, msg = 'RunningOrderEnd', B.ro_delete(message_id=str(500 + k))
+                msg_text = TJ.to_text(msg)
             else:
                 cls, msg = gen_hist.random_message(g, state, 500 + k)
-            msg_text = TJ.to_text(msg)
+                msg_text = TJ.to_text(msg)
             docs.append(msg_text)
-            try:
-                mo = impl.load(msg_text)
-            except Exception:  # noqa: BLE001
-                continue
-            ro.stories if False else None
-            impl.add(ro, mo)
+            if mo is None:
+                try:
+                    mo = impl.load(msg_text)
+                except Exception:  # noqa: BLE001
+                    script.append({'msg_text': msg_text, 'obj': None, 'via': 'add'})
+                    continue
+                obj = len(objects)
+                objects.append((cls, msg_text, mo))
+            # str(ro) was evaluated by the previous check_state: msg.merge(ro) is the documented route that
+            # `+` itself takes on a running order that is not completed
+            via = 'merge' if (not ro.completed and hrng.random() < 0.15) else 'add'
+            script.append({'msg_text': msg_text, 'obj': obj, 'via': via})
+            impl.add(ro, mo, via=via)
             tree = TJ.to_tree(ro.xml)
-            text = check_state(oc, 'C14', ro, tree, f'history seed={hseed} after step {k} ({cls})',
-                               {'history': docs[:]}, original)
+            text = check_state(oc, 'C14', ro, tree, f'history {kind} seed={hseed} after step {k} ({cls}, via {via})',
+                               {'live_history': {'ro_text': ro_text, 'script': list(script)}}, original)
             oc.count('after:' + cls)
             if text is not None:
                 states.append((tree, text))
@@ -198,6 +248,18 @@ def replay(pid, fl):
     if 'source' in fl:
         ro = impl.load(fl['source'])
         original = {'message_id': ro.message_id, 'ro_id': ro.ro_id}
+    elif 'live_history' in fl:
+        lh = fl['live_history']
+        ro = impl.load(lh['ro_text'])
+        original = {'message_id': ro.message_id, 'ro_id': ro.ro_id}
+        objects = {}
+        for st in lh['script']:
+            str(ro)
+            if st['obj'] is None:
+                continue
+            if st['obj'] not in objects:
+                objects[st['obj']] = impl.load(st['msg_text'])
+            impl.add(ro, objects[st['obj']], via=st['via'])
     else:
         docs = fl['history']
         ro = impl.load(docs[0])
